@@ -55,7 +55,7 @@ def tab_lifecycle(chk: Check) -> None:
            node=rets[0] if rets else it.node, kind='is-terminal-definition')
     for sc in common.state_classes(prog):
         if 'is_terminal' in sc.methods:
-            chk.ob('TAB-lifecycle', sc.methods['is_terminal'], False, 'a state class overrides is_terminal()',
+            chk.ob('TAB-lifecycle', prog.view(sc.methods['is_terminal']), False, 'a state class overrides is_terminal()',
                    kind='is-terminal-override')
     ht = prog.func('processes.Process.has_terminated')
     rets = [s for s in ast.walk(ht.node) if isinstance(s, ast.Return)]
@@ -144,15 +144,30 @@ def dom_allowed_check(chk: Check) -> None:
         if subject_ok and refuses:
             good.append(t)
     # every normal completion of _exit_current_state passes the test, or the "no current state" branch
-    none_tests = [n for n in cfg.nodes if n.kind == 'test' and norm(n.ast.test) in ('self._state is None', 'not self._state')]
-    through_ids = {t.id for t in good} | {t.id for t in none_tests}
+    ffx = chk.ctx.facts.analyse(ex)
+    none_tests = []
+    for n in cfg.nodes:
+        if n.kind != 'test':
+            continue
+        if ('none', 'self._state') in ffx.cond_atoms(n.ast.test, True):
+            none_tests.append((n, 'true'))
+        elif ('none', 'self._state') in ffx.cond_atoms(n.ast.test, False):
+            none_tests.append((n, 'false'))
+    through_ids = {t.id for t in good} | {t.id for t, _ in none_tests}
     ok = bool(good) and cfg.must_pass(cfg.entry, [cfg.exit], lambda n: n.id in through_ids)
+    # and the path through a "current state exists" branch must pass the ALLOWED test itself
+    for t, none_label in none_tests:
+        other = 'false' if none_label == 'true' else 'true'
+        for s2, l in t.succ:
+            if l == other:
+                ok = ok and cfg.must_pass(s2, [cfg.exit], lambda n: n.id in {g.id for g in good})
     chk.ob('DOM-allowed-check', ex, ok, 'every path to a normal return of _exit_current_state passes the ALLOWED test '
            '(or the construction branch where no state exists yet)', kind='allowed-test-dominates-exit')
-    for t in none_tests:
+    for t, none_label in none_tests:
         # construction branch: only the initial state may be entered
-        sub = [n for n in cfg.nodes if n.kind == 'test' and 'initial_state_label' in unparse(n.ast.test)]
-        ok2 = any(not branch_reaches_exit(cfg, s, 'true') for s in sub)
+        side = cfg.reachable([s2 for s2, l in t.succ if l == none_label], include_src=True)
+        sub = [n for n in cfg.nodes if n.kind == 'test' and 'initial_state_label' in unparse(n.ast.test) and n.id in side]
+        ok2 = any(not branch_reaches_exit(cfg, s2, 'true') or not branch_reaches_exit(cfg, s2, 'false') for s2 in sub)
         chk.ob('DOM-allowed-check', ex, ok2, 'with no current state only the initial state label is accepted', node=t.ast,
                kind='initial-only')
 
